@@ -67,11 +67,10 @@ Section Good.
     intros c es. induction es as [|e rest IH]; intro pred; cbn [caa_loop].
     - good_auto.
     - destruct e; try apply IH.
-      destruct (assoc n (sd_attrs pred)) as [ty|]; [|good_auto].
-      destruct rest as [|e2 rest2]; [good_auto|].
-      destruct e2; destruct ty as [p|p l];
-        first [ solve [good_auto]
-              | destruct (struct_of_prim E p); [apply IH | solve [good_auto]] ].
+      destruct (assoc n (sd_attrs pred)) as [ty|]; [|solve [good_auto]].
+      destruct rest as [|e2 rest2]; [solve [good_auto]|].
+      destruct ty as [p|p l]; destruct (is_index e2); try solve [good_auto];
+        (destruct (struct_of_prim E p); [apply IH | solve [good_auto]]).
   Qed.
 
   Lemma good_check_attribute_access : forall T c v es, good (check_attribute_access E T c v es).
@@ -81,83 +80,29 @@ Section Good.
     destruct (struct_of_prim E p); [apply good_caa_loop | solve [good_auto]].
   Qed.
 
-  Lemma nofuel_struct_of_type : forall t, nofuel (struct_of_type E t).
-  Proof.
-    intro t. unfold struct_of_type, nofuel. destruct t; [|congruence].
-    destruct (struct_of_prim E t); congruence.
-  Qed.
-
-  Lemma nofuel_gtvl_loop : forall es cur last, nofuel (gtvl_loop E cur last es).
-  Proof.
-    induction es as [|e rest IH]; intros cur last; cbn [gtvl_loop]; unfold nofuel in *.
-    - destruct (attr_of cur last); congruence.
-    - destruct (attr_of cur last) as [t|]; [|congruence].
-      pose proof (nofuel_struct_of_type t) as Hs. unfold nofuel in Hs.
-      destruct (struct_of_type E t); cbn [rbind]; first [apply IH | congruence].
-  Qed.
-
-  Lemma nofuel_gtvl : forall T v es, nofuel (get_type_of_variable_list E T v es).
-  Proof.
-    intros. unfold get_type_of_variable_list, nofuel.
-    destruct (assoc v (td_vars T)) as [t|]; [|congruence].
-    pose proof (nofuel_struct_of_type t) as Hs. unfold nofuel in Hs.
-    destruct (struct_of_type E t) as [sd| |k|]; cbn [rbind]; try congruence.
-    destruct es.
-    - destruct (assoc v (sd_attrs sd)); congruence.
-    - apply nofuel_gtvl_loop.
-  Qed.
-
   Lemma good_check_single_path : forall T c v p, good (check_single_path E T c v p).
   Proof.
     intros. unfold check_single_path. apply good_andthen.
     - apply good_check_attribute_access.
-    - pose proof (nofuel_gtvl T v p) as Hn. unfold nofuel in Hn.
-      destruct (get_type_of_variable_list E T v p) as [t| |k|]; try congruence; try good_auto.
-  Qed.
-
-  Lemma nofuel_rand : forall a b, nofuel a -> nofuel b -> nofuel (rand a b).
-  Proof.
-    intros a b Ha Hb. unfold rand, rbind, nofuel in *.
-    destruct a as [[|]| |k|]; congruence.
-  Qed.
-
-  Lemma nofuel_is_number : forall T e, nofuel (expression_is_number E T e).
-  Proof.
-    intros T e. induction e; cbn [expression_is_number].
-    - unfold nofuel; congruence.
-    - unfold nofuel; congruence.
-    - unfold nofuel; congruence.
-    - pose proof (nofuel_gtvl T v p) as Hn. unfold nofuel in *.
-      destruct (get_type_of_variable_list E T v p); cbn [rbind]; congruence.
-    - unfold nofuel; congruence.
-    - assumption.
-    - apply nofuel_rand; assumption.
-  Qed.
-
-  Lemma nofuel_is_string : forall T e, nofuel (expression_is_string E T e).
-  Proof.
-    intros T e. destruct e; cbn [expression_is_string]; try (unfold nofuel; congruence).
-    pose proof (nofuel_gtvl T v p) as Hn. unfold nofuel in *.
-    destruct (get_type_of_variable_list E T v p); cbn [rbind]; congruence.
-  Qed.
-
-  Lemma good_lift_bool : forall r k, nofuel r -> (forall b, good (k b)) -> good (lift_bool r k).
-  Proof.
-    intros r k Hn Hk. unfold lift_bool, nofuel in *. destruct r; try congruence; try good_auto. apply Hk.
+    - destruct (get_type_of_variable_list E T v p) as [[[| | |s]|p0 l]|]; good_auto.
   Qed.
 
   Lemma good_check_expression : forall T c e, good (check_expression E T c e).
   Proof.
-    intros T c e. induction e; cbn [check_expression]; try good_auto; try assumption.
+    intros T c e. induction e; cbn [check_expression]; try solve [good_auto]; try assumption.
     - apply good_check_single_path.
-    - apply good_lift_bool.
-      + apply nofuel_rand; apply nofuel_is_number.
-      + intros [|]; [good_auto|]. apply good_lift_bool.
-        * apply nofuel_rand; apply nofuel_is_string.
-        * intros [|]; good_auto.
-    - apply good_lift_bool.
-      + apply nofuel_rand; apply nofuel_is_number.
-      + intros [|]; good_auto.
+    - destruct (is_cmp o); [|destruct (is_arith o)].
+      + destruct (expression_is_number E T e1 && expression_is_number E T e2); [solve [good_auto]|].
+        destruct (expression_is_string E T e1 && expression_is_string E T e2); good_auto.
+      + destruct (expression_is_number E T e1 && expression_is_number E T e2); good_auto.
+      + apply good_andthen; assumption.
+  Qed.
+
+  Lemma good_check_limit : forall T c lim, good (check_limit E T c lim).
+  Proof.
+    intros T c lim. unfold check_limit. destruct lim; [good_auto|].
+    apply good_andthen; [apply good_check_attribute_access|].
+    destruct (expression_is_number E T (EPath v p)); good_auto.
   Qed.
 
   Lemma good_check_missing : forall c defattrs fs, good (check_missing c defattrs fs).
@@ -195,8 +140,10 @@ Section Good.
            destruct (assoc id (sd_attrs def)) as [[p|p len]|]; try solve [good_auto]).
     (* PVStruct under a struct-typed attribute *)
     - destruct (struct_of_prim E p) as [sd'|]; [|solve [good_auto]].
-      induction fs as [|[id' v'] r IHr]; [solve [good_auto]|].
-      inversion H; subst. apply good_band; [apply H2 | apply IHr; assumption].
+      apply good_band; [apply good_check_missing|].
+      clear - H. induction fs as [|[id' v'] r IHr]; [solve [good_auto]|].
+      inversion H; subst. apply good_band; [|apply IHr; assumption].
+      destruct (has_key id' (sd_attrs sd')); [apply H2 | solve [good_auto]].
     - clear - H. eapply Forall_impl; [|exact H]. intros a Ha. apply Ha.
     (* PVArray under an array-typed attribute *)
     - apply good_arr_wrap.
@@ -211,7 +158,7 @@ Section Good.
         destruct H2 as [_ H2]. clear - H2. induction fs as [|[id' v'] r2 IHr2]; [solve [good_auto]|].
         inversion H2; subst. apply good_band; [|apply IHr2; assumption].
         destruct (has_key id' (sd_attrs sd')); [apply H1 | solve [good_auto]].
-      + destruct (check_type_of_value value (Some p) p); [apply IHr; assumption | solve [good_auto]].
+      + destruct (check_type_of_value E value (Some p) p); [apply IHr; assumption | solve [good_auto]].
   Qed.
 
   Lemma good_check_attr_type : forall v jctx ictx def id, good (check_attr_type E jctx ictx def id v).
@@ -270,7 +217,7 @@ Section Good.
     - exfalso. destruct (is_index (last es (PF v))); [discriminate|].
       destruct (attr_of a0 (last es (PF v))); discriminate.
     - exfalso. pose proof (nofuel_ipm_walk es a) as Hn. unfold nofuel in Hn. congruence.
-    - exfalso. pose proof (nofuel_struct_of_type v0) as Hn. unfold nofuel in Hn. congruence.
+    - exfalso. destruct v0 as [p0|p0 l]; [destruct (struct_of_prim E p0)|]; discriminate.
   Qed.
 
   Lemma good_forall2 : forall A B (f : A -> B -> chk) l1 l2,
@@ -284,6 +231,7 @@ Section Good.
   Lemma good_check_task_call : forall T ti pi c, good (check_task_call E T ti pi c).
   Proof.
     intros. unfold check_task_call. destruct (has_key (c_name c) (e_tasks E)); [|good_auto].
+    destruct (task_reaches E (length (e_tasks E)) (c_name c) (td_name T)); [solve [good_auto]|].
     apply good_andthen; [apply good_check_call_parameters|].
     unfold check_call_matches. destruct (find_tdef E (c_name c)); [|good_auto].
     apply good_andthen.
@@ -301,8 +249,9 @@ Section Good.
     - apply good_forall_from_all. intros. apply good_check_task_call.
     - apply good_band; [|apply good_check_expression].
       apply good_forall_from. eapply Forall_impl; [|exact H]. intros a Ha j. apply Ha.
-    - destruct par.
-      + good_auto.
+    - destruct par; (apply good_band; [apply good_check_limit|]).
+      + destruct b as [|s0 [|s1 r]]; try solve [good_auto]. destruct s0; try solve [good_auto].
+        apply good_check_task_call.
       + apply good_forall_from. eapply Forall_impl; [|exact H]. intros a Ha j. apply Ha.
     - apply good_band; [|apply good_band; [|apply good_check_expression]].
       + apply good_forall_from. eapply Forall_impl; [|exact H]. intros a Ha j. apply Ha.
